@@ -75,9 +75,14 @@ func has(list []string, s string) bool {
 // bytes were taken (false: Serve ended, or nothing read them before the
 // watchdog expired).
 func (w *world) send(b []byte) (taken bool, served bool) {
+	select {
+	case <-w.done:
+		return false, true
+	default:
+	}
 	res := make(chan error, 1)
+	w.pipe.Peer.SetWriteDeadline(time.Now().Add(watchdog))
 	go func() {
-		w.pipe.Peer.SetWriteDeadline(time.Now().Add(watchdog))
 		_, err := w.pipe.Peer.Write(b)
 		res <- err
 	}()
@@ -523,7 +528,7 @@ var helperComp = map[string]string{
 	"ping": "QPing", "version": "(QUnmarshal false)", "xtime": "(QUnmarshal false)", "carbons-enable": "(QUnmarshal false)",
 	"upload": "QUpload", "history-fetch": "(QUnmarshal false)", "history-iter": "QHistIter", "disco-info": "(QUnmarshal false)",
 	"disco-items": "QItems", "commands-fetch": "QItems", "commands-exec": "QExecute",
-	"roster-fetch": "QRoster", "roster-set": "(QUnmarshal true)", "blocklist-fetch": "QBlocklist", "blocklist-add": "QSendOnly",
+	"roster-fetch": "QRoster", "roster-set": "QSendOnly", "blocklist-fetch": "QBlocklist", "blocklist-add": "QSendOnly",
 	"pubsub-fetch": "QPubsub", "bookmarks-fetch": "QBookmarks", "unmarshal-struct": "(QUnmarshal false)", "iter-plain": "QIterPlain",
 	"ibb-open": "QSendOnly",
 }
